@@ -42,6 +42,7 @@ def _c(id, n, v, rew, episodes, policies, **kw):
 class Adapter(EnvAdapter):
     name = "MultiCVRP"
     props = ("C01", "C03", "C04", "C06", "C08", "C10", "C11", "C12")
+    gen_heavy = {'c6v3_sparse': (40, 300), 'c6v2_dense': (40, 300)}
     probe_cap = 64
 
     # ---- configurations -------------------------------------------------------------------
